@@ -45,6 +45,96 @@ fn opt(v: Option<u64>) -> String {
     v.map(|x| x.to_string()).unwrap_or("_".into())
 }
 
+/// Two overlapping auto-compaction calls on one thread (the property quantifies over concurrent
+/// schedule / auto calls): B plans and is parked at the first effect of its job (taking the seq lock
+/// for its job-spawned frame) while A plans the same cut points and finishes its job; then B runs.
+/// Whatever the two jobs write for one cut point, it is the same summary text for the same history,
+/// and every summary builds on a base that covers strictly less than it does.
+fn overlapping_jobs_case(rep: &mut Report, rng: &mut Rng, case_no: u64) {
+    use crate::sched::Scheduler;
+    let ts = TestStore::new("c09o");
+    let t = ts.store.ensure_default().unwrap();
+    let mut msgs: Vec<Msg> = Vec::new();
+    // an earlier checkpointed cut point (the base), then fresh messages
+    let k0 = rng.range(6, 14) as usize;
+    random_history(&ts.store, &t, rng, k0, &mut msgs);
+    let _ = ts.store.compaction_auto_v1(&t, CompactionAutoV1Request { stride_messages: Some(2), max_new_checkpoints: Some(1), dry_run: Some(false), actor_id: "u".into(), origin: "cli".into() });
+    for k in 0..4 {
+        let _ = ts.store.append_message(&t, "user".into(), "cli".into(), format!("fresh {k} {}", rng.below(1000)));
+    }
+    let before = ts.frames().len();
+    let mk = |store: std::sync::Arc<ripd::ContinuityStore>, t: String| -> Box<dyn FnOnce() + Send> {
+        Box::new(move || {
+            let _ = store.compaction_auto_v1(&t, CompactionAutoV1Request { stride_messages: Some(2), max_new_checkpoints: Some(1), dry_run: Some(false), actor_id: "u".into(), origin: "cli".into() });
+        })
+    };
+    let mut s = Scheduler::new(vec![mk(ts.store.clone(), t.clone()), mk(ts.store.clone(), t.clone())]);
+    // B (worker 1) up to its first effect: it has planned by then
+    s.step(1);
+    let b_parked_at = s.where_is(1);
+    // A to the end
+    for _ in 0..400 {
+        if s.where_is(0) == "finished" {
+            break;
+        }
+        if s.step_or_block(0, 60) == "blocked" {
+            break;
+        }
+    }
+    let a_done = s.where_is(0) == "finished";
+    for _ in 0..400 {
+        if s.where_is(1) == "finished" {
+            break;
+        }
+        s.step_or_block(1, 60);
+    }
+    for _ in 0..400 {
+        if s.where_is(0) == "finished" {
+            break;
+        }
+        s.step_or_block(0, 60);
+    }
+    s.finish();
+    let after = ts.frames();
+    let cks: Vec<&Value> = after[before.min(after.len())..].iter().filter(|f| f["type"] == "continuity_compaction_checkpoint_created").collect();
+    rep.evaluations += 1;
+    rep.traces_validated += 1;
+    rep.count("overlapping_jobs_cases");
+    let mut by_cut: std::collections::BTreeMap<u64, Vec<(String, Value)>> = std::collections::BTreeMap::new();
+    for c in &cks {
+        let a = c["summary_artifact_id"].as_str().unwrap_or("").to_string();
+        let v: Value = std::fs::read(ts.ws.join(".rip/artifacts/blobs").join(&a)).ok().and_then(|b| serde_json::from_slice(&b).ok()).unwrap_or(Value::Null);
+        by_cut.entry(c["to_seq"].as_u64().unwrap_or(0)).or_default().push((a, v));
+    }
+    let case = json!({"case": case_no, "b_parked_at": b_parked_at, "a_finished_while_b_was_parked": a_done, "checkpoint_frames_appended": cks.len()});
+    for (cut, list) in &by_cut {
+        if list.len() >= 2 {
+            rep.count("overlapping_jobs_wrote_the_same_cut_point_twice");
+            rep.nontrivial_case(&format!("overlap {case_no} {cut}"));
+            let texts: Vec<&str> = list.iter().map(|(_, v)| v["summary_markdown"].as_str().unwrap_or("")).collect();
+            if texts.iter().any(|x| *x != texts[0]) {
+                rep.oracle_failure("C09|overlapping-jobs-wrote-different-summaries", &format!("two jobs for the cut point at seq {cut} wrote different summary text for the same history"), case.clone());
+            }
+        }
+        for (a, v) in list {
+            // a summary's base covers strictly less than the summary
+            let text = v.to_string();
+            if let Some(p) = text.find("\"base_summary_artifact_id\":\"") {
+                let base: String = text[p + 28..].chars().take_while(|c| *c != '"').collect();
+                let bv: Value = std::fs::read(ts.ws.join(".rip/artifacts/blobs").join(&base)).ok().and_then(|b| serde_json::from_slice(&b).ok()).unwrap_or(Value::Null);
+                let bt = bv.to_string();
+                if let Some(q) = bt.find("\"to_seq\":") {
+                    let n: u64 = bt[q + 9..].chars().take_while(|c| c.is_ascii_digit()).collect::<String>().parse().unwrap_or(0);
+                    rep.count("overlapping_jobs_bases_checked");
+                    if n >= *cut && *cut > 0 {
+                        rep.oracle_failure("C09|summary-based-on-its-own-cut", &format!("the summary {a} for the cut at seq {cut} is based on summary {base}, which already covers seq {n}"), case.clone());
+                    }
+                }
+            }
+        }
+    }
+}
+
 pub fn run(opts: &Opts) -> Report {
     let mut rep = Report::new(
         "C09",
@@ -369,6 +459,10 @@ pub fn run(opts: &Opts) -> Report {
             }
             rep.count("determinism_pairs");
         }
+    }
+    let no = if opts.thorough { 120 } else { 16 } * opts.scale;
+    for case_no in 0..no {
+        overlapping_jobs_case(&mut rep, &mut rng, case_no);
     }
     rep
 }
